@@ -27,8 +27,8 @@ def copt(h):
 def clist(xs):
     return "[" + "; ".join(xs) + "]"
 
-MIME_KIND = {"string": "MPlain", "into_str": "MPlain", "json": "MJson", "into_value": "MJson", "json_bad": "MJson",
-             "form": "MForm", "form_bad": "MForm"}
+MIME_KIND = {"string": "MPlain", "into_str": "MPlain", "json": "MJson", "into_value": "MJson", "json_bad": "MJson", "json_typed": "MJson",
+             "form": "MForm", "form_bad": "MForm", "form_typed": "MForm"}
 
 def coq_op(op, enc):
     t = op["t"]
